@@ -281,6 +281,12 @@ def judge(case, ctx, prefix='C12'):
     nodes = circdesc.nodes({'components': comps})
     oc = order_class(cd)
     okey = 'hostile-order' if any(oc) else 'conventional-order'
+    # the rounding error of every output row scales with the condition number of the DC nodal matrix the model builder inverts
+    k_build = dynamics.construction_kappa(cd)
+    if not k_build <= 1e8:
+        ctx.count('set_aside_construction_ill_conditioned')
+        return
+    alg_tol = max(1e-7, 256 * k_build * 2.0 ** -53)
     ctx.count('simulations'); ctx.count('simulations_' + okey)
     if case.get('t0_steps'):
         ctx.count('simulations_time_axis_not_from_zero')
@@ -319,7 +325,7 @@ def judge(case, ctx, prefix='C12'):
             if c['nodes'][1] == nd:
                 r -= o1['I'][c['id']]
         ctx.maxstat('max_kcl_residual_over_scale', float(np.max(np.abs(r))) / scale_i)
-        if np.max(np.abs(r)) > 1e-7 * scale_i:
+        if np.max(np.abs(r)) > alg_tol * scale_i:
             ctx.violation(f'{prefix}/kcl/{okey}', f'currents do not balance at node {nd!r}: max residual {float(np.max(np.abs(r)))!r} (signal {scale_i!r})', {'order_class': oc})
             break
     # voltage = potential difference; source outputs reproduce the inputs
@@ -330,12 +336,12 @@ def judge(case, ctx, prefix='C12'):
         if c['ctor'].endswith('source'):
             u = o1['fns'][c['id']](o1['tin'])
             got = o1['V'][c['id']] if dynamics.is_vsrc(c) else o1['I'][c['id']]
-            if np.max(np.abs(got - u)) > 1e-7 * max(float(np.max(np.abs(u))), 1e-300):
+            if np.max(np.abs(got - u)) > alg_tol * max(float(np.max(np.abs(u))), 1e-300):
                 ctx.violation(f'{prefix}/source-does-not-follow-its-input/{c["ctor"]}/{okey}',
                               f'{"voltage across" if dynamics.is_vsrc(c) else "current through"} source {c["id"]!r} deviates from its input by {float(np.max(np.abs(got - u)))!r}', {'order_class': oc})
         if c['ctor'] in ('resistor', 'conductance'):
             R = c['args']['R'] if c['ctor'] == 'resistor' else 1 / c['args']['G']
-            if np.max(np.abs(o1['V'][c['id']] - R * o1['I'][c['id']])) > 1e-7 * max(sig_v, R * sig_i):
+            if np.max(np.abs(o1['V'][c['id']] - R * o1['I'][c['id']])) > alg_tol * max(sig_v, R * sig_i):
                 ctx.violation(f'{prefix}/ohm/{okey}', f'resistor {c["id"]!r}: v != R i', {})
     # stiff systems (time constants more than 6 decades apart) are ill-conditioned for ANY float integrator: the slow states drown
     # in the rounding of the fast ones. They are judged for the algebraic clauses above only.
